@@ -66,6 +66,9 @@
                                 C14_never_fails_real_mismatched_move: a history on RT with a move that C17's side condition
                                 attach_ok excludes (TP-ECUS of a FLEXRAY-TP-CONFIG into a CAN-TP-CONFIG: stored type (8232, 2216),
                                 the destination lists the name with type (8231, 519)); the theorem applies, the sort returns OK.
+   [F] C14_sort_descends_below_ordered  non-vacuity of C14_children_first BELOW an ordered node, on RT: SUB-ELEMENTS of an
+                                IMPLEMENTATION-DATA-TYPE is ordered; the ANNOTATIONS of its member, built in the order b, a by a
+                                history, are reordered by the sort of the data type, and the result is sorted_f.
    [U] C14_findable_mono        a name found by find_sub_element under a 32-bit version mask (what every insertion path checks) is found
                                 under u32::MAX (what sort looks up) unless the wider lookup runs into a table panic
    [F] C14_cmp_cyclic_refuted   the comparison BEFORE fix b1d60f9 (policy_v0) ordered a2 < a10 < a1b < a2 (tiny tables)
@@ -302,3 +305,14 @@ Theorem C14_never_fails_real_mismatched_move : exists w w' n9 n7,
   SpecOps.find_sub_element SpecReal.RT (n_type n9) (n_name n7) MAXV = Val (Some ((8231, 519), [13])) /\
   e_sort SpecReal.RT HashRealElement.tab_element HashRealAttr.tab_attr HashRealEnum.tab_enum 3516 6311 0 w = Val (OK tt, w').
 Proof. exact SortProofsReal.never_fails_real_mismatched_move. Qed.
+
+Theorem C14_sort_descends_below_ordered : exists w w' n7,
+  Inv.run_ops SpecReal.RT HashRealElement.tab_element HashRealEnum.tab_enum SortProofsReal.nv_check 1048576 []
+    SortProofsReal.nv_hist3 empty_world = Val w /\
+  w_nodes w 7 = Some n7 /\ SpecOps.is_ordered SpecReal.RT (n_type n7) = Val true /\
+  option_map n_content (w_nodes w 10) = Some [CElem 11; CElem 13] /\
+  e_sort SpecReal.RT HashRealElement.tab_element HashRealAttr.tab_attr HashRealEnum.tab_enum 3516 6311 5 w = Val (OK tt, w') /\
+  option_map n_content (w_nodes w' 7) = Some [CElem 8] /\
+  option_map n_content (w_nodes w' 10) = Some [CElem 13; CElem 11] /\
+  sorted_f SpecReal.RT HashRealElement.tab_element HashRealAttr.tab_attr HashRealEnum.tab_enum 3516 6311 (fuel_of w) w' 5.
+Proof. exact SortProofsReal.sort_descends_below_ordered. Qed.
